@@ -105,11 +105,13 @@ class Summary:
     direct_writes: set = field(default_factory=set)
     param_calls: set = field(default_factory=set)      # (param name, frozenset of ghosts restored around the call): calls of a callable parameter
     cols_written: dict = field(default_factory=dict)   # root -> set of column names written through a subscript store ('*' = unknown)
+    transient: set = field(default_factory=set)        # ghosts / module state changed *temporarily* inside a restoring context (visible to
+    #                                                    other threads while the context is open)
 
     def key(self):
         return (frozenset(self.writes), frozenset(self.reads), frozenset(self.ret), frozenset(self.stores),
                 frozenset(self.unknown), frozenset(self.calls), frozenset(self.param_calls),
-                frozenset((k, frozenset(v)) for k, v in self.cols_written.items()))
+                frozenset((k, frozenset(v)) for k, v in self.cols_written.items()), frozenset(self.transient))
 
 
 def _root_of(av):
@@ -529,6 +531,7 @@ class FuncAnalysis:
             if item.optional_vars is not None:
                 self.assign(item.optional_vars, v, s)
         self.masked.append(restored)
+        self.sum.transient |= restored
         self.block(s.body)
         self.masked.pop()
 
@@ -1090,6 +1093,7 @@ class FuncAnalysis:
         if s is None:
             return {F}
         self.sum.calls.add(qualname)
+        self.sum.transient |= s.transient
         restores = RESTORING_CMS.get(qualname, ())
         lits = getattr(self, '_call_lits', {}) or {}
         self._call_lits = {}
@@ -1100,7 +1104,7 @@ class FuncAnalysis:
             s2.reads = {self._inst_name(w, lits) for w in s.reads}
             s2.stores = {(self._inst_name(x, lits), av) for x, av in s.stores}
             s2.ret = {(av[0], self._inst_name(av[1], lits)) if av[0] in ('R', 'S') else av for av in s.ret}
-            s2.unknown, s2.flows, s2.calls = s.unknown, s.flows, s.calls
+            s2.unknown, s2.flows, s2.calls, s2.transient = s.unknown, s.flows, s.calls, s.transient
             s = s2
 
         def subst_root(x):
